@@ -233,6 +233,7 @@ impl SemanticState {
             if to_resolve.is_empty() {
                 break;
             }
+            let item_count = self.type_registry.item_count();
 
             for resolvee_path in &to_resolve {
                 let ItemState::Unresolved(definition) = self
@@ -261,7 +262,11 @@ impl SemanticState {
                     ItemState::Resolved(item);
             }
 
-            if to_resolve == self.type_registry.unresolved() {
+            // Attempting a type can register its generated vftable type even when the type
+            // itself is not resolved yet; that is progress too, as others may refer to it.
+            if to_resolve == self.type_registry.unresolved()
+                && item_count == self.type_registry.item_count()
+            {
                 // Oh no! We failed to resolve any new types!
                 // Bail from the loop.
                 return Err(anyhow::anyhow!(
